@@ -215,6 +215,65 @@ theorem confined_files (f : Features) (fs : FS) (caches : List (Str × Str)) (cf
   obtain ⟨_, _, _, _, hp, hread, _, _⟩ := getG_opened (new_ok_cfg fs caches cfg hnew).2 h
   exact ⟨nd, hmem, hpre, osResolve p, hin, read_reads_resolved fs p d hread⟩
 
+/-! ### every loader a program can hold: `default`, `new`, `add` -/
+
+theorem check_ok {fs : FS} {nd x : Str × Str} (h : check fs nd = .ok x) :
+    x = nd ∧ nd.1.getLast? = some '/' ∧ nd.2.head? = some '/' ∧ isDir fs nd.2 = true := by
+  unfold check at h
+  split at h
+  · cases h
+  · rename_i h1
+    split at h
+    · cases h
+    · rename_i h2
+      split at h
+      · cases h
+      · rename_i h3
+        injection h with h
+        exact ⟨h.symm, by simpa using h1, by simpa using h2, by simpa using h3⟩
+
+/-- **reachable_cfgOk**: the hypothesis `CfgOk` of `confined_partial` / `retry_confined` / `getG_opened`
+(namespaces end with '/', directories are absolute) holds in EVERY state of a `LocalLoader`:
+`Default`, `new` and `add` are the only writers of the private `caches` field. -/
+theorem reachable_cfgOk {fs : FS} {cfg : Cfg} (h : Reachable fs cfg) : CfgOk cfg := by
+  induction h with
+  | default => intro nd h; cases h
+  | new hn => exact (new_ok_cfg fs _ _ hn).2
+  | add _ ha ih =>
+    unfold Loader.add at ha
+    split at ha
+    · cases ha
+    · rename_i x hx
+      injection ha with ha; subst ha
+      obtain ⟨e, h1, h2, _⟩ := check_ok hx
+      intro y hy
+      rcases List.mem_append.1 hy with hy | hy
+      · exact ih y hy
+      · rw [List.mem_singleton.1 hy, e]; exact ⟨h1, h2⟩
+
+/-- `CfgOk` is also NECESSARY: with a namespace that does not end in '/' (which `check` refuses) the
+retried IRI `iri.ttl` is served by a DIFFERENT pair than the one that matched `iri`, from a directory whose
+namespace does not prefix `iri` — the guarded `get` itself is not confined on such a configuration. -/
+theorem cfgOk_necessary :
+    let cfg : Cfg := [("http://ex.org/ns/a.t".toList, "/srv/secret".toList), ("http://ex.org/ns/".toList, "/srv/data".toList)]
+    let fs : FS := ⟨[(["srv".toList, "data".toList], .dir), (["srv".toList, "secret".toList, "tl".toList], .file "S".toList)]⟩
+    ¬ CfgOk cfg ∧
+      getCur allFeats cfg fs "http://ex.org/ns/a".toList = .ok "/srv/secret/tl".toList "S".toList "text/turtle".toList ∧
+      ¬ ConfinedAt cfg "http://ex.org/ns/a".toList "/srv/secret/tl".toList := by
+  refine ⟨?_, by decide, by decide⟩
+  intro h
+  have := (h _ (List.mem_cons_self ..)).1
+  revert this; decide
+
+/-- **confined_reachable**: THE PROPERTY (path level and file level) for every reachable loader state. -/
+theorem confined_reachable (f : Features) (fs : FS) (cfg : Cfg) (iri p d ct : Str)
+    (hR : Reachable fs cfg) (h : getCur f cfg fs iri = .ok p d ct) :
+    ConfinedAt cfg iri p ∧ ConfinedFile cfg fs iri d := by
+  have hc := reachable_cfgOk hR
+  obtain ⟨nd, hmem, hpre, hin⟩ := opened_inside hc h (Or.inl guard_present)
+  obtain ⟨_, _, _, _, hp, hread, _, _⟩ := getG_opened hc h
+  exact ⟨⟨nd, hmem, hpre, hin⟩, nd, hmem, hpre, osResolve p, hin, read_reads_resolved fs p d hread⟩
+
 /-! ### IRIs that come from links followed in loaded data -/
 
 theorem stripFragment_idem (s : Str) : stripFragment (stripFragment s) = stripFragment s :=
@@ -225,12 +284,15 @@ theorem confinedAt_strip (cfg : Cfg) (iri p : Str) :
     ConfinedAt cfg (stripFragment iri) p ↔ ConfinedAt cfg iri p := by
   unfold ConfinedAt; rw [stripFragment_idem]
 
+theorem confinedFile_strip (cfg : Cfg) (fs : FS) (iri d : Str) :
+    ConfinedFile cfg fs (stripFragment iri) d ↔ ConfinedFile cfg fs iri d := by
+  unfold ConfinedFile; rw [stripFragment_idem]
+
 /-- **link_confined**: whatever `Resource::get_neighbour` reads when it follows an IRI `t` found in loaded
-data (through `get_resource`, `get_any_resource`, `get_all_resources`, `get_resource_items`, `pred_*`, typed
-or not: all of them are `get_neighbour`), with any notion of "absolute IRI" and any current base, was read
+data, with any notion of "absolute IRI" and any current base, in any reachable loader state, was read
 inside a directory whose namespace prefixes `t`: a link has exactly the power of a caller-supplied IRI. -/
-theorem link_confined (f : Features) (isAbs : Str → Bool) (fs : FS) (caches : List (Str × Str)) (cfg : Cfg)
-    (base : Option Str) (t p d ct : Str) (hnew : Loader.new fs caches = .ok cfg)
+theorem link_confined (f : Features) (isAbs : Str → Bool) (fs : FS) (cfg : Cfg)
+    (base : Option Str) (t p d ct : Str) (hR : Reachable fs cfg)
     (h : getNeighbour isAbs (getCur f) cfg fs base t = .loaded (.ok p d ct)) :
     ConfinedAt cfg t p ∧ ConfinedFile cfg fs t d := by
   unfold getNeighbour at h
@@ -240,29 +302,190 @@ theorem link_confined (f : Features) (isAbs : Str → Bool) (fs : FS) (caches : 
     · split at h
       · injection h with h
         unfold getResourceRead at h
-        have h1 := confined_current f fs caches cfg _ p d ct hnew h
-        have h2 := confined_files f fs caches cfg _ p d ct hnew h
+        obtain ⟨h1, h2⟩ := confined_reachable f fs cfg _ p d ct hR h
         rw [confinedAt_strip, confinedAt_strip] at h1
-        refine ⟨h1, ?_⟩
-        unfold ConfinedFile at h2 ⊢
-        rw [stripFragment_idem, stripFragment_idem] at h2
-        exact h2
+        rw [confinedFile_strip, confinedFile_strip] at h2
+        exact ⟨h1, h2⟩
       · cases h
     · cases h
 
 /-- **ctx_confined**: a remote JSON-LD context handed to the JSON-LD processor by the document loader that
 `get_graph` installs is the content of a file inside a directory whose namespace prefixes its URL. -/
-theorem ctx_confined (f : Features) (fs : FS) (caches : List (Str × Str)) (cfg : Cfg) (url p d : Str)
-    (hnew : Loader.new fs caches = .ok cfg) (h : ctxFetch (getCur f) cfg fs url = some (p, d)) :
+theorem ctx_confined (f : Features) (fs : FS) (cfg : Cfg) (url p d : Str)
+    (hR : Reachable fs cfg) (h : ctxFetch (getCur f) cfg fs url = some (p, d)) :
     ConfinedAt cfg url p ∧ ConfinedFile cfg fs url d := by
   unfold ctxFetch at h
   split at h
   · rename_i p' d' ct hg
     split at h
     · injection h with h; injection h with e1 e2; subst e1; subst e2
-      exact ⟨confined_current f fs caches cfg url _ _ ct hnew hg, confined_files f fs caches cfg url _ _ ct hnew hg⟩
+      exact confined_reachable f fs cfg url _ _ ct hR hg
     · cases h
   · cases h
+
+/-! ### every entry point of `Resource` that follows links -/
+
+theorem getAllTerms_occurs {r : Res} {p x : RTerm} (h : x ∈ getAllTerms r p) : Occurs r.graph x := by
+  unfold getAllTerms at h
+  obtain ⟨t, ht, e⟩ := List.mem_map.1 h
+  exact ⟨t, (List.mem_filter.1 ht).1, Or.inr (Or.inr e.symm)⟩
+
+theorem predAllTerms_occurs {r : Res} {p x : RTerm} (h : x ∈ predAllTerms r p) : Occurs r.graph x := by
+  unfold predAllTerms at h
+  obtain ⟨t, ht, e⟩ := List.mem_map.1 h
+  exact ⟨t, (List.mem_filter.1 ht).1, Or.inl e.symm⟩
+
+theorem unique_mem {α : Type} {l : List α} {x : α} (h : unique l = .ok x) : x ∈ l := by
+  match l, h with
+  | [y], h => simp [unique] at h; simp [h]
+
+theorem ladderTerms_occurs (first rest : RTerm) : ∀ (n : Nat) (c : Res) (x : RTerm),
+    x ∈ ladderTerms first rest n c → Occurs c.graph x := by
+  intro n
+  induction n with
+  | zero => intro c x h; cases h
+  | succ n ih =>
+    intro c x h
+    unfold ladderTerms at h
+    split at h
+    · cases h
+    · rename_i v hv
+      have hvo : Occurs c.graph v := getAllTerms_occurs (unique_mem hv)
+      split at h
+      · rw [List.mem_singleton.1 h]; exact hvo
+      · cases h
+      · rename_i nx _
+        rcases List.mem_cons.1 h with h | h
+        · rw [h]; exact hvo
+        · exact ih { c with id := nx } x h
+
+theorem getTermItems_occurs {r : Res} {p x : RTerm} {fuel : Nat} (h : x ∈ getTermItems r p fuel) :
+    Occurs r.graph x := by
+  unfold getTermItems at h
+  split at h
+  · rename_i id _
+    exact ladderTerms_occurs _ _ fuel { r with id := id } x h
+  · cases h
+
+/-- one `get_neighbour` call that read something read it inside the directory of a pair whose namespace
+prefixes the IRI term it was given -/
+theorem neighbour_confined (f : Features) (isAbs : Str → Bool) (fs : FS) (cfg : Cfg) (r : Res) (x : RTerm)
+    (p d ct : Str) (hR : Reachable fs cfg)
+    (h : neighbour ⟨isAbs, getCur f, cfg, fs⟩ r x = .loaded (.ok p d ct)) :
+    ∃ t, x = .iri t ∧ ConfinedAt cfg t p ∧ ConfinedFile cfg fs t d := by
+  cases x with
+  | iri t => exact ⟨t, rfl, link_confined f isAbs fs cfg r.base t p d ct hR h⟩
+  | bnode _ => cases h
+  | lit _ => cases h
+
+/-- everything any link-following entry point of `Resource` can perform on resource `r` for predicate `q` -/
+def allFollows (E : Env) (r : Res) (q : RTerm) (fuel : Nat) : List Follow :=
+  getAllResources E r q ++ predAllResources E r q ++ getResourceItems E r q fuel
+
+/-- the calls performed by the unique-value / any-value entry points are among those of the all-values ones -/
+theorem performed_subset (E : Env) (r : Res) (q : RTerm) (fuel : Nat) (F : Follow)
+    (h : F ∈ (getResource E r q).2 ∨ F ∈ (getAnyResource E r q).2 ∨ F ∈ (predResource E r q).2 ∨
+      F ∈ (predAnyResource E r q).2) : F ∈ allFollows E r q fuel := by
+  unfold allFollows getAllResources predAllResources
+  have sub : ∀ (k : Nat) (l : List RTerm), F ∈ (l.take k).map (neighbour E r) → F ∈ l.map (neighbour E r) := by
+    intro k l hm
+    obtain ⟨t, ht, e⟩ := List.mem_map.1 hm
+    exact List.mem_map.2 ⟨t, List.mem_of_mem_take ht, e⟩
+  rcases h with h | h | h | h
+  · exact List.mem_append.2 (Or.inl (List.mem_append.2 (Or.inl (sub 2 _ h))))
+  · exact List.mem_append.2 (Or.inl (List.mem_append.2 (Or.inl (sub 1 _ h))))
+  · exact List.mem_append.2 (Or.inl (List.mem_append.2 (Or.inr (sub 2 _ h))))
+  · exact List.mem_append.2 (Or.inl (List.mem_append.2 (Or.inr (sub 1 _ h))))
+
+/-- **resource_reads_confined** ("... and whether it comes from the caller or from links followed in
+loaded data"): whatever `get_resource`, `get_any_resource`, `get_all_resources`, `pred_resource`,
+`pred_any_resource`, `pred_all_resources`, `get_resource_items` (any number of steps; and hence their
+`_typed` variants, which convert the same `Resource`s) read while following links from ANY graph, for any
+resource, predicate, base and reachable loader state, is the content of a file inside the directory of a
+pair whose namespace prefixes an IRI that OCCURS IN THE GRAPH. -/
+theorem resource_reads_confined (f : Features) (isAbs : Str → Bool) (fs : FS) (cfg : Cfg) (r : Res)
+    (q : RTerm) (fuel : Nat) (p d ct : Str) (hR : Reachable fs cfg)
+    (h : .loaded (.ok p d ct) ∈ allFollows ⟨isAbs, getCur f, cfg, fs⟩ r q fuel) :
+    ∃ t, Occurs r.graph (.iri t) ∧ ConfinedAt cfg t p ∧ ConfinedFile cfg fs t d := by
+  unfold allFollows getAllResources predAllResources getResourceItems at h
+  have key : ∀ l : List RTerm, (∀ x ∈ l, Occurs r.graph x) →
+      Follow.loaded (.ok p d ct) ∈ l.map (neighbour ⟨isAbs, getCur f, cfg, fs⟩ r) →
+      ∃ t, Occurs r.graph (.iri t) ∧ ConfinedAt cfg t p ∧ ConfinedFile cfg fs t d := by
+    intro l hl hm
+    obtain ⟨x, hx, e⟩ := List.mem_map.1 hm
+    obtain ⟨t, et, h1, h2⟩ := neighbour_confined f isAbs fs cfg r x p d ct hR e
+    exact ⟨t, et ▸ hl x hx, h1, h2⟩
+  rcases List.mem_append.1 h with h | h
+  · rcases List.mem_append.1 h with h | h
+    · exact key _ (fun x hx => getAllTerms_occurs hx) h
+    · exact key _ (fun x hx => predAllTerms_occurs hx) h
+  · exact key _ (fun x hx => getTermItems_occurs hx) h
+
+/-! ### the "no symbolic links" assumption: exact, and necessary -/
+
+theorem getStepR_osRead (P : Params) (recur : Str → Outcome) (cfg : Cfg) (fs : FS) (iri : Str) :
+    getStepR P (osRead fs) recur cfg iri = getStep P recur cfg fs iri := rfl
+
+/-- without links the walk with symbolic links IS the walk of the model, given fuel for every component -/
+theorem walkL_no_links (fs : FS) : ∀ (comps : List Str) (n : Nat) (cur : List Str),
+    comps.length < n → walkL ⟨fs, []⟩ n cur comps = walk fs cur comps := by
+  intro comps
+  induction comps with
+  | nil =>
+    intro n cur h
+    cases n with
+    | zero => cases h
+    | succ n => simp [walkL, walk]
+  | cons c rest ih =>
+    intro n cur h
+    cases n with
+    | zero => cases h
+    | succ n =>
+      have h' : rest.length < n := by simpa using h
+      rw [walkL, walk]
+      simp only [FSL.linkAt, List.find?_nil, Option.map_none, ih n _ h']
+
+theorem splitSlash_length (s : Str) : (splitSlash s).length ≤ s.length + 1 := by
+  induction s with
+  | nil => simp [splitSlash]
+  | cons c cs ih =>
+    unfold splitSlash
+    split
+    · simp; omega
+    · have : (consHead c (splitSlash cs)).length = (splitSlash cs).length := by
+        cases h : splitSlash cs with
+        | nil => exact absurd h (splitSlash_ne_nil cs)
+        | cons a b => simp [consHead]
+      rw [this]; simp; omega
+
+theorem length_le_utf8Len (s : Str) : s.length ≤ utf8Len s := by
+  induction s with
+  | nil => simp [utf8Len]
+  | cons c cs ih =>
+    have : 1 ≤ c.utf8Size := Char.utf8Size_pos c
+    simp [utf8Len] at ih ⊢; omega
+
+/-- **osReadL_no_links**: on a file system without links, `read` with symlink resolution is the model's
+`read`, for EVERY path (fuel beyond PATH_MAX suffices: longer paths are ENAMETOOLONG either way) -/
+theorem osReadL_no_links (fs : FS) (fuel : Nat) (hf : PATH_MAX < fuel) (p : Str) :
+    osReadL ⟨fs, []⟩ fuel p = osRead fs p := by
+  unfold osReadL osRead statL stat
+  by_cases h0 : '\x00' ∈ p
+  · simp [h0]
+  · by_cases h1 : utf8Len p ≥ PATH_MAX
+    · simp [h0, h1]
+    · have hl : (splitSlash p).length < fuel := by
+        have := splitSlash_length p; have := length_le_utf8Len p; omega
+      simp only [h0, h1, if_false, walkL_no_links fs _ fuel [] hl]
+
+/-- **getCurL_no_links**: the model with symbolic links restricted to link-free file systems is the model
+all the theorems are about — "symlinks excluded" is the ONLY difference between the two. -/
+theorem getCurL_no_links (f : Features) (cfg : Cfg) (fs : FS) (fuel : Nat) (hf : PATH_MAX < fuel) (iri : Str) :
+    getCurL f cfg ⟨fs, []⟩ fuel iri = getCur f cfg fs iri := by
+  have e : osReadL ⟨fs, []⟩ fuel = osRead fs := funext (osReadL_no_links fs fuel hf)
+  unfold getCurL
+  rw [e]
+  rfl
 
 /-- **reads_only_in_get**: the premise under which the theorems about `get` speak for the whole crate —
 the only file-system accesses of `sophia_resource` (table regenerated from every non-test source file of
@@ -311,6 +534,24 @@ theorem confined_refuted : ¬ Confined (getW allFeats) := by
 theorem unguarded_refuted (hg : Gen.LoaderExts.guardPresent = false) : ¬ Confined (getCur allFeats) := by
   have e : getCur allFeats = getW allFeats := by unfold getCur getW; rw [hg]
   rw [e]; exact confined_refuted
+
+def lFs : FSL :=
+  ⟨⟨[(["srv".toList, "data".toList], .dir), (["srv".toList, "secret".toList, "s.ttl".toList], .file "S".toList)]⟩,
+   [(["srv".toList, "data".toList, "lnk".toList], "../secret".toList)]⟩
+
+/-- **symlink_assumption_necessary**: with ONE symbolic link inside the configured directory the guarded
+`get` returns bytes for a path that is lexically inside the directory (`ConfinedAt` holds!) while the
+file the OS actually reads is outside it: `read_reads_resolved` / `confined_files` cannot be stated for
+file systems with links, and the property as worded ("open a path outside") is about lexical paths. The
+harness replays this on the real code (`y` requests, root1/lnk_out -> ../secret: `symesc=1`). -/
+theorem symlink_assumption_necessary :
+    getCurL allFeats wCfg lFs 100 "http://ex.org/ns/lnk/s.ttl".toList
+      = .ok "/srv/data/lnk/s.ttl".toList "S".toList "text/turtle".toList ∧
+    ConfinedAt wCfg "http://ex.org/ns/lnk/s.ttl".toList "/srv/data/lnk/s.ttl".toList ∧
+    statL lFs 100 "/srv/data/lnk/s.ttl".toList
+      = .ok (["srv".toList, "secret".toList, "s.ttl".toList], .file "S".toList) ∧
+    ¬ (osResolve "/srv/data".toList <+: ["srv".toList, "secret".toList, "s.ttl".toList]) :=
+  ⟨by decide, by decide, by rfl, by decide⟩
 
 /-- the repaired code rejects both witnesses -/
 theorem repaired_rejects_witnesses :
@@ -400,6 +641,27 @@ example : getNeighbour (fun _ => true) (getCur allFeats) wCfg wFs (some "http://
       "http://ex.org/ns/doc.ttl#other".toList = .sameDoc ∧
     getNeighbour (fun _ => true) (getCur allFeats) wCfg wFs (some "http://ex.org/ns/doc.ttl".toList)
       "http://ex.org/ns/../secret.ttl".toList = .loaded (.err .unsupported) := ⟨by decide, by decide, by decide⟩
+-- `reachable_cfgOk` / `confined_reachable`: a loader built with `default` + `add` serves a file
+example : Loader.add wFs [] wCfg.head! = .ok wCfg ∧ Reachable wFs wCfg :=
+  ⟨by rfl, Reachable.add (nd := wCfg.head!) Reachable.default (by rfl)⟩
+-- `resource_reads_confined`: a list of two links, one to a served document, one escaping: the first is read
+-- (inside the directory), the second is refused; a two-valued property makes `get_resource` fail AFTER
+-- having followed both values
+def rG : RGraph :=
+  [(.iri "urn:s".toList, .iri "urn:q".toList, .bnode "b0".toList),
+   (.bnode "b0".toList, rdfFirst, .iri "http://ex.org/ns/a".toList),
+   (.bnode "b0".toList, rdfRest, .bnode "b1".toList),
+   (.bnode "b1".toList, rdfFirst, .iri "http://ex.org/ns/../secret.ttl".toList),
+   (.iri "urn:s".toList, .iri "urn:p".toList, .iri "http://ex.org/ns/a.ttl".toList),
+   (.iri "urn:s".toList, .iri "urn:p".toList, .iri "http://ex.org/ns//etc/passwd".toList)]
+def rE : Env := ⟨fun _ => true, getCur allFeats, wCfg, wFs⟩
+def rR : Res := ⟨.iri "urn:s".toList, some "http://ex.org/ns/doc.ttl".toList, rG⟩
+example : getResourceItems rE rR (.iri "urn:q".toList) 10 =
+      [.loaded (.ok "/srv/data/a.ttl".toList "A".toList "text/turtle".toList), .loaded (.err .unsupported)] ∧
+    (match (getResource rE rR (.iri "urn:p".toList)).1 with | .error .multiple => true | _ => false) = true ∧
+    (getResource rE rR (.iri "urn:p".toList)).2 =
+      [.loaded (.ok "/srv/data/a.ttl".toList "A".toList "text/turtle".toList), .loaded (.err .unsupported)] ∧
+    (getAnyResource rE rR (.iri "urn:p".toList)).2.length = 1 := ⟨by decide, by decide, by decide, by decide⟩
 -- `ctx_confined`: a served JSON-LD context is handed over, a Turtle file is not, an escaping URL is refused
 def jFs : FS := ⟨[(["srv".toList, "data".toList], .dir),
                   (["srv".toList, "data".toList, "c.jsonld".toList], .file "{}".toList),
